@@ -8,7 +8,6 @@ import (
 	"fmt"
 	"os"
 	"strings"
-	"sync"
 	"testing"
 	"time"
 
@@ -16,21 +15,6 @@ import (
 	"pgregory.net/rapid"
 	"verifkit"
 )
-
-var (
-	vkOnce    sync.Once
-	vkShared  *vkCluster
-	vkErr     error
-	vkCaseSeq int
-)
-
-func vkSharedCluster() (*vkCluster, error) {
-	vkOnce.Do(func() {
-		dir := vkMkdirTemp("bedK")
-		vkShared, vkErr = vkStartCluster(dir, 3, 2*time.Second)
-	})
-	return vkShared, vkErr
-}
 
 type vkStmt struct {
 	Kind string
@@ -81,6 +65,9 @@ func TestVerifC05DistributedQuery(t *testing.T) {
 		wnode := rapid.IntRange(0, 2).Draw(rt, "writeNode")
 		if err := cl.write(wnode, db, pts); err != nil {
 			rt.Fatalf("write at consistency all with every node up failed: %v", err)
+		}
+		if err := cl.syncMeta(); err != nil {
+			rt.Fatalf("harness: %v", err)
 		}
 		coord := rapid.IntRange(0, 2).Draw(rt, "coordinator")
 		stmts := []vkStmt{
@@ -177,13 +164,6 @@ func TestVerifC05DistributedQuery(t *testing.T) {
 		for i := 0; i < avoided; i++ {
 			stats.Exclude("remote-stream-cut-at-frame-boundary")
 		}
-		outcome := "equal"
-		if rf1.Err != "" {
-			outcome = "error"
-		} else if rf1.String() != r0.String() {
-			rt.Fatalf("%s %q on node %d under faults %v returned a result that differs from the fault-free result and is not an error (rf=%d, owners %v)\n--- under faults\n%s\n--- fault-free\n%s",
-				verifkit.Sig("silently-incomplete-result"), st.Text, coord, fkinds, rf, owners, rf1, r0)
-		}
 		// must succeed when every shard keeps an owner that answers at request time
 		servable := true
 		for _, os := range owners {
@@ -201,6 +181,18 @@ func TestVerifC05DistributedQuery(t *testing.T) {
 			if !good {
 				servable = false
 			}
+		}
+		listing := st.Kind == "showMeasurements" || st.Kind == "showTagKeys" || st.Kind == "showTagValues"
+		outcome := "equal"
+		if rf1.Err != "" {
+			outcome = "error"
+		} else if rf1.String() != r0.String() && listing && !servable {
+			// known finding show-listing-ignores-node-errors: excluded from the main campaign
+			stats.Exclude("show-listing-ignores-node-errors")
+			outcome = "excluded-known"
+		} else if rf1.String() != r0.String() {
+			rt.Fatalf("%s %q on node %d under faults %v returned a result that differs from the fault-free result and is not an error (rf=%d, owners %v)\n--- under faults\n%s\n--- fault-free\n%s",
+				verifkit.Sig("silently-incomplete-result"), st.Text, coord, fkinds, rf, owners, rf1, r0)
 		}
 		if servable && requestTimeOnly && outcome == "error" && strings.HasPrefix(st.Kind, "show") == false {
 			rt.Fatalf("%s %q on node %d failed (%s) although every shard has an owner that is up and answering; faults %v, rf=%d, owners %v",
@@ -248,4 +240,38 @@ func vkWantSeries(r vkResult, n int) string {
 		return fmt.Sprintf("expected %d series, got %d", n, len(r.Rows))
 	}
 	return ""
+}
+
+// Directed campaign for known finding show-listing-ignores-node-errors.
+func TestVerifC05KFShowListing(t *testing.T) {
+	stats := verifkit.For("C05", "TestVerifC05KFShowListing", "directed: RF=1, three hourly groups spread over three nodes, one remote node refuses connections; SHOW TAG VALUES / SHOW MEASUREMENTS / SHOW TAG KEYS on another node")
+	defer stats.Flush()
+	cl, err := vkSharedCluster()
+	if err != nil {
+		t.Fatalf("cluster: %v", err)
+	}
+	db := fmt.Sprintf("c05kf_%d", os.Getpid())
+	if err := cl.createDB(db, 1, time.Hour); err != nil {
+		t.Fatal(err)
+	}
+	defer cl.dropDB(db)
+	var pts []models.Point
+	base := int64(1600000000) - int64(1600000000)%3600
+	for g := 0; g < 6; g++ {
+		pts = append(pts, models.MustNewPoint(fmt.Sprintf("m%d", g), models.NewTags(map[string]string{"h": fmt.Sprint("g", g)}), models.Fields{"v": 1.0}, time.Unix(base+int64(g)*3600, 0)))
+	}
+	if err := cl.write(0, db, pts); err != nil {
+		t.Fatal(err)
+	}
+	for _, q := range []string{"SHOW TAG VALUES WITH KEY = h", "SHOW MEASUREMENTS", "SHOW TAG KEYS"} {
+		r0 := cl.query(0, db, q)
+		cl.nodes[1].proxy.setFault(vkFault{Kind: "refuse"})
+		r1 := cl.query(0, db, q)
+		cl.nodes[1].proxy.setFault(vkFault{Kind: "up"})
+		stats.Case(true, q+" -> "+fmt.Sprint(r1.Err == "" && r1.String() != r0.String()), "directed")
+		if r1.Err == "" && r1.String() != r0.String() {
+			stats.KnownReproduced("show-listing-ignores-node-errors", fmt.Sprintf("%q with the only owner of some shards refusing connections returns a shorter listing and no error", q))
+		}
+	}
+	stats.Sample(map[string]string{"layout": "rf=1, 6 hourly groups, node 1 refuses"})
 }
